@@ -4,5 +4,5 @@ CONSTANTS
   MaxCalls = 2
   MaxDepth = 3
   AsWritten = TRUE
-INVARIANTS MutualExclusion NoLeak CountsConsistent NoDeadlock
+INVARIANTS NoLeak
 CHECK_DEADLOCK FALSE
